@@ -226,6 +226,7 @@ pub fn gen_jitter_spec(rng: &mut Prng, prop: &str, allowed: &[CF], c16_bias: boo
     spec.aux = encode_marks(&marks);
     // the process's logging configuration: Trace level enabled in one run out of six
     spec.logger = rng.chance(1, 6);
+    spec.pre_new = rng.chance(1, 40);
     spec
 }
 
@@ -435,6 +436,13 @@ fn output_step(
 pub fn run_jitter_history(spec: &Spec, st: &mut Stats, cfg: &JitterRunCfg) -> RunEnd {
     let clock = Arc::new(spec.clock.clone().expect("clock"));
     st.evals += 1;
+    if spec.pre_new {
+        #[cfg(feature = "jstd")]
+        {
+            let ok = matches!(crate::gens::guard(|| rand_jitter::JitterRng::new().is_ok()), Ok(true));
+            st.count(if ok { "probe:real_clock_new_before_run" } else { "probe:real_clock_new_failed" });
+        }
+    }
     let g = build_jitter(clock.clone());
     let m = JitterModel::new(ModelClock::new(clock.clone()));
     let mut p = Pair { g, m };
